@@ -811,18 +811,25 @@ def make_geo_objects(plan, targets):
     return out
 
 
-def _sender_proto(make, sends):
-    """a protocol that sends make() at each of the times `sends`: 0 = in initialize, later = from a timer"""
+def _sender_proto(make, sends, then=None):
+    """a protocol that sends make() at each of the times `sends`: 0 = in initialize, later = from a timer; with
+    `then`, each send is followed in the same callback by the command then() makes (a change of mind: the later
+    command is the one that counts)"""
     class P(_Silent):
+        def _send(self):
+            self.provider.send_mobility_command(make())
+            if then is not None:
+                self.provider.send_mobility_command(then())
+
         def initialize(self):
             for t in sends:
                 if t == 0.0:
-                    self.provider.send_mobility_command(make())
+                    self._send()
                 else:
                     self.provider.schedule_timer("resend", t)
 
         def handle_timer(self, timer):
-            self.provider.send_mobility_command(make())
+            self._send()
     return P
 
 
@@ -853,10 +860,18 @@ def geo_plan_impl(ref, targets, speed, dt, duration, plan, objs):
             return lambda: cart_objs[nd["target"]]
         return lambda: GotoCoordsMobilityCommand(c[0], c[1], c[2])
 
+    def then_maker(nd):
+        # plan option "then": both the geographic sender and its twin change their mind in the same callback and
+        # send a Cartesian goto to another target's converted point - both must then head there (seeded C20_L)
+        if nd.get("then") is None:
+            return None
+        c = geo_to_cartesian(ref, targets[nd["then"]])
+        return lambda: GotoCoordsMobilityCommand(c[0], c[1], c[2])
+
     for nd in plan["nodes"]:
         sends = [bitsf(x) for x in nd["sends"]]
-        g = builder.add_node(_sender_proto(geo_maker(nd), sends), (0.0, 0.0, 0.0))
-        c = builder.add_node(_sender_proto(cart_maker(nd), sends), (0.0, 0.0, 0.0))
+        g = builder.add_node(_sender_proto(geo_maker(nd), sends, then_maker(nd)), (0.0, 0.0, 0.0))
+        c = builder.add_node(_sender_proto(cart_maker(nd), sends, then_maker(nd)), (0.0, 0.0, 0.0))
         ids.append((g, c))
     builder.add_handler(TimerHandler())
     builder.add_handler(MobilityHandler(MobilityConfiguration(update_rate=dt, default_speed=speed,
@@ -1033,6 +1048,8 @@ class C20(Check):
                     nodes.append({"target": ti, "object": None, "sends": [0.0] + later(2)})
         for nd in nodes:
             nd["sends"] = [fbits(t) for t in nd["sends"]]
+            if ntargets > 1 and r.random() < 0.25:
+                nd["then"] = r.choice([t for t in range(ntargets) if t != nd["target"]])
         return {"objects": objects, "nodes": nodes, "cartShared": r.random() < 0.3,
                 # the objects are module-level constants of the mission: the same ones under every reference
                 "acrossSites": has_sites and r.random() < 0.6}
@@ -1194,7 +1211,9 @@ class C20(Check):
                               f"twin sent at the same times by GotoCoords to the converted point {pts[nd['target']]} ended at "
                               f"{bitsv3(got['cart'])}"))
             d = math.dist((0, 0, 0), pts[nd["target"]])
-            if sends[0] == 0.0 and bitsf(gg["speed"]) * bitsf(gg["dt"]) * (steps - 1) >= d and \
+            if nd.get("then") is not None:
+                where += f", each send followed in the same callback by a GotoCoords to the converted target {nd['then']}"
+            if nd.get("then") is None and sends[0] == 0.0 and bitsf(gg["speed"]) * bitsf(gg["dt"]) * (steps - 1) >= d and \
                     list(got["geo"]) != list(impl["points"][nd["target"]]):
                 fails.append(("C20:goto-geo", f"{where}: after enough time the node is at {bitsv3(got['geo'])}, not at the "
                               f"converted point {pts[nd['target']]}"))
